@@ -2,6 +2,7 @@ import RvModel.RealInst
 import RvModel.Gen.Defs
 import RvModel.Spec.C12
 import RvModel.Hand.C12
+import RvModel.Lemmas.Erf
 import Mathlib.Analysis.SpecialFunctions.Gaussian.GaussianIntegral
 import Mathlib.MeasureTheory.Integral.IntegralEqImproper
 /-!
@@ -86,7 +87,7 @@ theorem UnitPowerLaw_invcdf_val (d : Gen.UnitPowerLaw R) (p : R) :
 
 theorem Gaussian_cdf_val (d : Gen.Gaussian R) (x : R) :
     (Gen.Gaussian.cdf_real d x).val = (1 + R.erfR ((x.val - d.mu.val) / (d.sigma.val * Real.sqrt 2))) / 2 := by
-  simp only [Gen.Gaussian.cdf_real, mulAdd, R.add_val, R.sub_val, R.mul_val, R.div_val, R.neg_val, R.erf_val,
+  simp only [Gen.Gaussian.cdf_real, ErfL.erfc_neg_val, mulAdd, R.add_val, R.sub_val, R.mul_val, R.div_val, R.neg_val, R.erf_val,
     R.sqrt2_val, R.sci_val]
   norm_num
   ring
